@@ -317,6 +317,20 @@ def _inverse_pairs(col, rule="C16.R2"):
         raise AnalysisError("MeritFunctionForMatch._set_x: how x reaches the knobs is not recognised (cannot decide)")
     col.add(rule, "MeritFunctionForMatch._set_x#x-to-knobs", oks, sx_.loc(sx_.fn),
             "_set_x is the inverse of _get_x: x reaches the knobs multiplied by the weights (_x_to_knobs, directly or inside the merit call)", why)
+    # the two maps are affine in x: a clipped / saturated formula is constant outside its bounds, so it has no inverse there and the
+    # chain-rule factor get_jacobian reads off it (probing two scaled points) is wrong wherever a probe saturates
+    sat = False
+    for name in ("_scaled_to_native", "_scaled_from_native"):
+        msx = octx(repo, "MeritFuctionView", name)
+        for r in msx.of_kind("return"):
+            hit = [t for t in S.subterms(r.value) if S.is_call_of(t) and t[1] in (("attr", NP, "clip"), ("attr", NP, "minimum"), ("attr", NP, "maximum"),
+                                                                                   ("glob", "min"), ("glob", "max"), ("attr", NP, "where"))
+                   and any(msx.P(0) in S.subterms(a) for a in t[2])]
+            col.add(rule, f"MeritFuctionView.{name}#affine-not-saturated", not hit, msx.loc(r),
+                    "the scaling map is an affine function of x (no clipping)", S.show(hit[0])[:80] if hit else "", positive=True)
+            sat = sat or bool(hit)
+    if sat:
+        return
     try:
         s1, to_native = _map_expr(repo, "_scaled_to_native")
         s2, from_native = _map_expr(repo, "_scaled_from_native")
@@ -464,7 +478,42 @@ def _truncation_options(col, rule="C16.R4"):
                     f"Optimize.step hands its `{name}` argument to the solver step unchanged", S.show(kws.get(name)) if kws.get(name) is not None else "nothing")
 
 
+def _scalar_is_sum_of_squares_of_vector(col, rule="C16.R3"):
+    """a return_scalar view is the sum of squares of what the vector view returns (MeritFuctionView.get_jacobian reports 2 f0.J as its
+    gradient on that strength): both are built from the same residual vector, weights included"""
+    sx = octx(col.repo, "MeritFunctionForMatch", "__call__")
+    rets = sx.of_kind("return")
+    if not rets:
+        raise AnalysisError("MeritFunctionForMatch.__call__: no return -- cannot decide")
+    scal, vec, other = [], [], []
+    for r in rets:
+        for a in S.alts(r.value):
+            if S.is_call_of(a, ("attr", NP, "sum")) and len(a[2]) == 1:
+                arg = a[2][0]
+                if arg[:1] == ("op",) and arg[1] == "*":
+                    scal.append((r, arg[2], arg[3]))
+                elif arg[:1] == ("op",) and arg[1] == "**" and arg[3] == ("const", "2"):
+                    scal.append((r, arg[2], arg[2]))
+                else:
+                    other.append(a)
+            elif S.is_call_of(a, ("attr", NP, "dot")) and len(a[2]) == 2:
+                scal.append((r, a[2][0], a[2][1]))
+            elif S.is_call_of(a, ("attr", NP, "array")) and len(a[2]) == 1:
+                vec.append(a[2][0])
+            else:
+                vec.append(a)
+    if not scal or not vec:
+        raise AnalysisError("MeritFunctionForMatch.__call__: scalar / vector results not recognised -- cannot decide")
+    for r, x, y in scal:
+        ok = x == y and x in vec
+        col.add(rule, "MeritFunctionForMatch.__call__#scalar-is-sum-of-squares-of-the-vector", ok, sx.loc(r),
+                "the scalar result is sum(v * v) for the very vector v the vector form returns",
+                "" if ok else f"sum of ({S.show(x)[-60:]}) * ({S.show(y)[-60:]})")
+
+
 def check(col: Collector):
+    with col.rule():
+        _scalar_is_sum_of_squares_of_vector(col)
     with col.rule():
         _truncation_options(col)
     with col.rule():
